@@ -33,8 +33,10 @@ RULE = (
     "hash."
 )
 ASSUMPTIONS = [
-    "payload values are finite with |x| <= 1e6, or NaN (mean/std compared "
-    "with |diff| <= 1e-12 * max|partner value|)",
+    "payload values are finite with |x| <= 1e6, NaN, +inf or -inf (mean/std "
+    "compared with |diff| <= 1e-12 * max|finite partner value|; infinite "
+    "partner values count in <var>_number, make the mean +-inf or NaN and "
+    "the std NaN)",
     "pairs are distinct; all data sets of one concat list have the same "
     "groups, variables, extra dimension sizes and coordinate labels",
     "inputs are deep-copied before every typhon call (concat_collocations "
@@ -320,6 +322,10 @@ def classify(ctx, case, spec):
         cs[b] = cs.get(b, 0) + 1
     one_to_many = any(v >= 2 for v in cp.values())
     many_to_one = any(v >= 2 for v in cs.values())
+    most = max(max(cp.values()), max(cs.values()))
+    ctx.label("one-point-with->=128-partners" if most >= 128 else None,
+              "one-point-with->256-partners" if most > 256 else None,
+              "one-point-with->=1000-partners" if most >= 1000 else None)
     ctx.label(">=1000 pairs" if k >= 1000 else None,
               "single-pair" if k == 1 else None,
               "one-to-many" if one_to_many else None,
@@ -347,6 +353,9 @@ def classify(ctx, case, spec):
             if cdim in dims and vals.dtype.kind == "f" and \
                     local not in O.SKIP_LOCAL and np.isnan(vals).any():
                 ctx.label("nan")
+            if cdim in dims and vals.dtype.kind == "f" and \
+                    local not in O.SKIP_LOCAL and np.isinf(vals).any():
+                ctx.label("inf")
             if cdim in dims and vals.dtype.kind == "i" and local != "idx":
                 ctx.label("int-payload")
             if cdim in dims and vals.dtype == np.float32:
@@ -785,11 +794,11 @@ def check_collocator(case, ctx):
 def suites(tier):
     return [
         Suite("built", _tracked(check_built), strategy=G.built_cases(),
-              examples={"quick": 200, "thorough": 4000},
+              examples={"quick": 180, "thorough": 4000},
               essential_labels=(">=1000 pairs", "extra-dims", "nan",
                                 "ref-secondary", "custom", "concat-3")),
         Suite("histories", _tracked(check_history), strategy=G.history_cases(),
-              examples={"quick": 120, "thorough": 2000},
+              examples={"quick": 100, "thorough": 2000},
               essential_labels=("custom-then-plain",
                                 "custom-replaces-standard")),
         Suite("files", _tracked(check_files), strategy=G.file_cases(),
